@@ -78,6 +78,7 @@ class MonthPath:
     has_hl: Optional[bool]
     clamped: bool
     day_rel: str  # '<' cooling day before heating day, '>' after, '=' same, '?' unknown
+    n_clamps: int = 0
 
     def signature(self) -> str:
         return (f"ipf={self.ipf} cl_peak={self.has_cl} hl_peak={self.has_hl} days(cl?hl)={self.day_rel} "
@@ -122,6 +123,11 @@ def analyse(prog: Program, loop_bound: int = 1) -> MonthAnalysis:
     eng.slice(loop.body, lambda s: _EmitHooks.classify(s) is not None)
     st0 = State()
     st0.env[iv] = Rat.atom(iv)
+    # domain facts: durations are positive (an absent pulse carries the sentinel 1e-6), peaks and totals are >= 0
+    Iv = Rat.atom(iv)
+    for nm, ss in (("DCL", "+"), ("DHL", "+"), ("PCL", "0+"), ("PHL", "0+")):
+        a = Rat.atom(f"{SLOTS[nm]}[{Iv.key()}]")
+        st0.signs[a.key()] = (a, frozenset(ss))
     # clamp-shaped ifs:  if X < c: X = const   (no else)
     clamp_lines = set()
     for n in ast.walk(loop):
@@ -151,7 +157,8 @@ def analyse(prog: Program, loop_bound: int = 1) -> MonthAnalysis:
         ipf = st.facts.get(ipf_key)
         has_cl = _sign_fact(st, A["PCL"])
         has_hl = _sign_fact(st, A["PHL"])
-        clamped = any(tr and ln in clamp_lines and k.startswith("sign(") for k, tr, ln in st.trail)
+        n_clamps = len({ln for k, tr, ln in st.trail if tr and ln in clamp_lines and k.startswith("sign(")})
+        clamped = n_clamps > 0
         # relation of the two peak days on this path
         dd = st.sign_of(A["KCL"] - A["KHL"])
         if ipf is False:
@@ -164,7 +171,9 @@ def analyse(prog: Program, loop_bound: int = 1) -> MonthAnalysis:
             rel = "="
         else:
             rel = "?"
-        paths.append(MonthPath(loads, hours, order, nodes, st, ipf, has_cl, has_hl, clamped, rel))
+        mp = MonthPath(loads, hours, order, nodes, st, ipf, has_cl, has_hl, clamped, rel)
+        mp.n_clamps = n_clamps
+        paths.append(mp)
     # events before the loop (function level), evaluated straight-line
     pre: List[Tuple[str, object, ast.stmt]] = []
     eng2 = Engine(prog, fi, Hooks())
